@@ -436,6 +436,19 @@ def _one_histogram(ctx, hist, limits, counts, ci, wc, fac, order, perm):
                                      f"hist = pd.Series({[float(c) for c in counts]!r}, index=pd.IntervalIndex.from_breaks({[x * fac for x in limits]!r}, name='range')).iloc[{perm!r}]\n"
                                      f"wc = pd.Series({wc.to_dict()!r})\nng = wc.{acc}.gassner_cycles(hist.load_collective)\n"
                                      f"dmg = wc.fatigue.{modifier}().damage((hist * ng / hist.sum()).load_collective).sum()\nprint(ng, dmg)\nassert abs(dmg - 1) < 1e-9, dmg\n")
+                        # the other public entry points of the same object, then the Gassner cycles once more: evaluations do not change the object they are made on
+                        # (added after seed C11-d let gassner() write the shifted ND into the receiver's own curve)
+                        m = getattr(wc, acc)
+                        lm = float(m.lifetime_multiple(lc))
+                        if hasattr(m, 'gassner'):
+                            shifted = m.gassner(lc).to_pandas()
+                            if abs(float(shifted['ND']) - float(wc.ND) * lm) > 1e-9 * float(wc.ND) * lm:
+                                ctx.fail(f'C11:gassner-curve:{rule}{otag}', f'{rule}: gassner() returns ND = {float(shifted["ND"])}, ND * lifetime multiple = {float(wc.ND) * lm}', {'limits': limits, 'counts': counts})
+                        m.finite_life_factor(1e4)
+                        ng2 = float(getattr(wc, acc).gassner_cycles(lc))
+                        if ng2 != ng:
+                            ctx.fail(f'C11:not-repeatable:{rule}{otag}', f'{rule}: gassner_cycles returns {ng}, and {ng2} after lifetime_multiple / gassner / finite_life_factor were evaluated on the same object',
+                                     {'limits': limits, 'counts': counts, 'order': order})
                     do = float(wc.fatigue.miner_original().damage(lc).sum())
                     dh = float(wc.fatigue.miner_haibach().damage(lc).sum())
                     de = float(wc.fatigue.miner_elementary().damage(lc).sum())
